@@ -332,6 +332,42 @@ empty @is_you(int n) {
 }''', [['3'], ['1'], ['0']]),
 ]
 
+# ------------------------------------------------------------------------------------------------ enumerated expression trees
+TREE_LEAVES = ['a', 'gi', 'gb', 'id(b)', 'ar[1]', 'GA[0]', '7', 's.length', 'bump()']
+TREE_OPS = ['+', '-', '*']
+TREE_PROG = '''int gi = 5; byte gb = 200; int[] GA = [11, 22];
+int id(int v) { return v; }
+int bump() { gi += 3; return gi; }
+empty @is_you(int a, int b) { int[] ar = [a, b + 1, 3]; string s = "four";
+%s
+}'''
+
+
+def expr_trees(seed, tier):
+    """every arithmetic tree  L op (M op R)  and  (L op M) op R  over nine kinds of leaves (parameter, int / byte global, call,
+    local / global element, literal, length, call with an effect on a global that other leaves read): operand
+    preservation across sub-expressions (registers, spills, in-place globals), left-to-right order.  Thorough: all
+    13 122 trees; quick: a seeded sample."""
+    import itertools, random
+    exprs = []
+    for l, m, r in itertools.product(TREE_LEAVES, repeat=3):
+        for o1, o2 in itertools.product(TREE_OPS, repeat=2):
+            exprs.append('%s %s (%s %s %s)' % (l, o1, m, o2, r))
+            exprs.append('(%s %s %s) %s %s' % (l, o1, m, o2, r))
+    rnd = random.Random(seed)
+    rnd.shuffle(exprs)
+    per = 24
+    if tier == 'quick':
+        exprs = exprs[:per * 14]
+    items = []
+    for i in range(0, len(exprs), per):
+        body = '\n'.join('  gi = 5; write(%s); write(\' \');' % e for e in exprs[i:i + per])
+        src = TREE_PROG % body
+        for w in ([2, 3] if (i // per) % 5 == 0 else [2]):
+            items.append(runner.Item(('tree', i, w), src, ['3', '-2'], w=w, s=120,
+                                     meta={'family': 'expr_trees', 'classifier': {'seq': 'expr_trees'}}))
+    return items
+
 
 def misc(seed, tier):
     items = []
